@@ -8,6 +8,22 @@ pub mod world;
 
 use std::io::Write;
 
+pub mod seq {
+    use std::cell::Cell;
+    thread_local! { static SEQ: Cell<u64> = const { Cell::new(0) }; }
+    /// Next value of the thread-wide sequence counter (orders tap, API and hook events of one run).
+    pub fn next() -> u64 {
+        SEQ.with(|s| {
+            let v = s.get() + 1;
+            s.set(v);
+            v
+        })
+    }
+    pub fn reset() {
+        SEQ.with(|s| s.set(0));
+    }
+}
+
 /// Writes ndjson lines.
 pub fn write_ndjson(path: &std::path::Path, lines: &[serde_json::Value]) -> std::io::Result<()> {
     let mut f = std::io::BufWriter::new(std::fs::File::create(path)?);
